@@ -6,6 +6,7 @@ type propCfg struct {
 	Pkg             string
 	Test            string
 	Race            bool
+	RaceThorough    bool // build with -race in the thorough tier only
 	Tags            string
 	ShardsThorough  int
 	QuickTimeout    time.Duration
